@@ -1,23 +1,27 @@
 //! scratch probe (not part of any check)
-use jbonsai::vocoder::Vocoder;
-use jbv::pulse::LN20;
+use jbonsai::model::voice::question::Question;
 fn main() {
-    let args: Vec<String> = std::env::args().collect();
-    let w: Vec<f64> = std::fs::read_to_string(&args[1]).unwrap().split_whitespace().map(|x| x.parse().unwrap()).collect();
-    let stage: usize = args[2].parse().unwrap();
-    let alpha: f64 = args[3].parse().unwrap();
-    let gain: f64 = args[4].parse().unwrap();
-    let rate: usize = args[5].parse().unwrap();
-    let m = w.len();
-    let mut spec = vec![gain];
-    spec.extend(&w);
-    let p = rate / 20;
-    let mut voc = Vocoder::new(m + 1, 0, stage, false, rate, alpha, 0.0, 1.0, p);
-    let mut buf = vec![0.0; p];
-    let mut peaks = vec![];
-    for _ in 0..8 {
-        voc.synthesize(LN20, &spec, &[], &mut buf);
-        peaks.push(buf.iter().fold(0.0f64, |a, x| a.max(x.abs())));
+    let corpus = jbv::labels::Corpus::load(std::path::Path::new("/repo"));
+    let cands = [
+        "*+o=N/A:*", "*=a/A:-?+*", "*-a+*=*/A:0+*", "*/A:*+1+*/B:*", "*^k-*+*=o/*", "*-o+*=*/A:-1+*", "*=?/A:xx+*", "*_xx/K:1?+*",
+        "*/F:?_1#*@1_*", "*-pau+*=*/A:xx*", "*+sh=i/A:*", "?^*-a+*", "*^?-*+?=*", "*-N+*", "*/K:19+49-*",
+    ];
+    for c in cands {
+        let q = Question::parse(&[c]);
+        let kind = match &q {
+            Ok(Question::Regex(_)) => "REGEX",
+            Ok(_) => "fast",
+            Err(_) => "ERR",
+        };
+        let mut yes = 0;
+        if let Ok(q) = &q {
+            for l in &corpus.labels {
+                if q.test(l) {
+                    yes += 1;
+                }
+            }
+        }
+        let wc = corpus.lines.iter().filter(|l| jbv::refimpl::wildcard(c, l)).count();
+        println!("{:<22} {:<6} yes={} wildcard={}", c, kind, yes, wc);
     }
-    println!("stage {} peaks {:?}", stage, peaks.iter().map(|x| format!("{:.3e}", x)).collect::<Vec<_>>());
 }
